@@ -12,7 +12,8 @@ def front(g):
     Note:
     If the Pauli string is identity, i = N-1 will be returned, although there
     is no nontrivial qubit.'''
-    return torch.div(torch.argmax(g, dim=-1), 2, rounding_mode='floor')
+    i = torch.div(torch.argmax(g, dim=-1), 2, rounding_mode='floor')
+    return torch.where(g.sum(dim=-1) == 0, g.shape[-1]//2 - 1, i) # identity: N-1 as documented
 
 
 def condense(g):
